@@ -104,3 +104,111 @@ def c03(ctx, rep):
                                "real_reader_agrees_with_model": agree, "node_kinds": kinds}
     if cases:
         rep.samples.append({"grammar_text": cases[0]["text"][:600], "denoted_ast": cases[0]["expected"][:600]})
+
+# ------------------------------------------------------------------ C20 (bootstrap chain)
+def unquote_display(q):
+    """dump field of a display name (Go %q of the stored value) -> the name it stands for"""
+    if q == "-":
+        return None
+    raw = json.loads(q)
+    if len(raw) >= 2 and raw[0] == raw[-1] and raw[0] in "\"'`":
+        if raw[0] == "`":
+            return raw[1:-1]
+        if raw[0] == "'":
+            return raw[1:-1].replace("\\'", "'")
+        return json.loads(raw)
+    return raw
+
+def norm_display(dump):
+    """display-name quoting aside: the generated front-end keeps the literal text, the bootstrap one its value"""
+    out = []
+    for l in dump.splitlines():
+        if l.startswith(" rule "):
+            parts = l.split(" ", 3)
+            dn = unquote_display(parts[3]) if len(parts) > 3 else None
+            l = " rule %s %s" % (parts[2], json.dumps(dn))
+        out.append(l)
+    return "\n".join(out) + "\n"
+
+@prop("C20")
+def c20(ctx, rep):
+    from . import regen
+    repo = C.REPO
+    bindir = regen.build_tools(repo, ctx.sc.path("c20bin"))
+    # (1) every checked-in generated file is reproduced byte for byte by its Makefile rule
+    res = regen.regenerate(repo, bindir, ctx.sc.path("c20"))
+    for target, same, detail in res:
+        if not same:
+            rep.violation("regenerating %s with its documented rule does not reproduce the checked-in file" % target,
+                          {"artifact": target, "rule": detail, "how": "build the tools from the tree, run the Makefile recipe, cmp"}, found=True)
+    # (2) the three stages are a fixpoint: bootstrap-pigeon and pigeon produce the same pigeon.go
+    outs = {}
+    # (bootstrap-pigeon always emits the "// nolint" comments; stage 3 needs -nolint for the same text)
+    for tool in ("bootstrap-pigeon", "pigeon"):
+        p = subprocess.run([os.path.join(bindir, tool)] + (["-nolint"] if tool == "pigeon" else []) + ["grammar/pigeon.peg"], cwd=repo, stdout=subprocess.PIPE, stderr=subprocess.PIPE, timeout=300)
+        outs[tool] = (p.returncode, p.stdout)
+    if outs["bootstrap-pigeon"] != outs["pigeon"] or outs["pigeon"][0] != 0:
+        rep.violation("bootstrap-pigeon and pigeon generate different parsers from grammar/pigeon.peg (the bootstrap is not a fixpoint)",
+                      {"rc": [outs["bootstrap-pigeon"][0], outs["pigeon"][0]]}, found=True)
+    if outs["pigeon"][1] != open(os.path.join(repo, "pigeon.go"), "rb").read():
+        rep.violation("pigeon grammar/pigeon.peg does not reproduce pigeon.go", {}, found=True)
+    # (3) the model of static_code_generator (Embed.embed) writes the same file as the real tool and the tree
+    emb = []
+    for src, dst, var in (("builder/static_code.go", "builder/generated_static_code.go", "staticCode"),
+                          ("builder/static_code_range_table.go", "builder/generated_static_code_range_table.go", "rangeTable0")):
+        q = subprocess.run([ctx.model(), "-embed", os.path.join(repo, src), "-var", var], stdout=subprocess.PIPE, stderr=subprocess.PIPE, timeout=600)
+        real_out = ctx.sc.path("c20", "real_" + var + ".go")
+        subprocess.run([os.path.join(bindir, "static_code_generator"), src, real_out, var], cwd=repo, check=True, timeout=300)
+        real = open(real_out, "rb").read()
+        info = q.stderr.decode()
+        emb.append({"source": src, "model_equals_tool": q.stdout == real, "info": info.strip()})
+        if q.stdout != real:
+            found = real != open(os.path.join(repo, dst), "rb").read()
+            rep.violation("model Embed.embed and static_code_generator write different files for %s" % src,
+                          {"source": src, "theorem": "C20_embedded_constant_denotes_source is about the model"}, found=found)
+        if "kept_has_backquote=false" not in info:
+            rep.violation("%s contains a backquote after the delimiter: the generated raw string does not denote the source" % src,
+                          {"source": src, "info": info}, found=True)
+    # (4) the hand-written bootstrap front-end and the generated one build the same AST on the bootstrap subset
+    ft = C.build_harness_tool(ctx.sc, "fronttool")
+    bt = C.build_harness_tool(ctx.sc, "boottool")
+    n = ctx.q(400, 6000)
+    p = subprocess.run([ft, "-seed", str(ctx.seed), "-n", str(n), "-bootstrap"], stdout=subprocess.PIPE, check=True, timeout=1200)
+    cases = [json.loads(l) for l in p.stdout.decode().splitlines()]
+    # plus the repository's own grammars in the subset
+    extra = []
+    for rel in ("grammar/bootstrap.peg",):
+        extra.append({"id": rel, "text": open(os.path.join(repo, rel)).read(), "nopos": None})
+    allc = cases + extra
+    q = subprocess.run([bt], input="\n".join(json.dumps({"id": d["id"], "text": d["text"]}) for d in allc).encode(),
+                       stdout=subprocess.PIPE, check=True, timeout=1200)
+    boot = {}
+    for l in q.stdout.decode().splitlines():
+        o = json.loads(l)
+        boot[o["id"]] = o
+    pigeon = ctx.pigeon()
+    def one(d):
+        rc, out, err = hook_dump(pigeon, d["text"], withpos=False)
+        return d, rc, out, err
+    agree = 0
+    with concurrent.futures.ThreadPoolExecutor(max_workers=C.NCPU) as ex:
+        for d, rc, out, err in ex.map(one, allc):
+            b = boot.get(d["id"], {"ok": False, "err": "no output"})
+            if rc != 0 or not b["ok"]:
+                rep.violation("a grammar of the bootstrap subset is rejected by %s" % ("the generated front-end" if rc != 0 else "the bootstrap front-end: " + b.get("err", "")[:200]),
+                              {"grammar_text": d["text"], "bootstrap_error": b.get("err"), "pigeon_error": err[:500]}, found=True)
+                continue
+            if norm_display(out) != norm_display(b["dump"]):
+                rep.violation("bootstrap.Parser and the generated front-end build different ASTs:\n" + first_diff(norm_display(b["dump"]), norm_display(out)),
+                              {"grammar_text": d["text"], "bootstrap_ast": b["dump"], "pigeon_ast": out}, found=True)
+            else:
+                agree += 1
+            if d.get("nopos") and out != d["nopos"]:
+                rep.violation("generated front-end differs from the denoted AST on a bootstrap-subset grammar", {"grammar_text": d["text"]}, found=True)
+    rep.cov["evaluations"] = len(res) + len(allc) + 4
+    rep.cov["distinct_nontrivial"] = len({hashlib.sha1(d["text"].encode()).hexdigest() for d in allc})
+    rep.cov["distribution"] = {"artifacts_regenerated": len(res), "artifacts_identical": sum(1 for r in res if r[1]),
+                               "bootstrap_subset_grammars": len(allc), "front_ends_agree": agree, "embed": emb}
+    rep.samples.append({"artifact_rules": [r[0] for r in res][:6]})
+    if cases:
+        rep.samples.append({"bootstrap_subset_text": cases[0]["text"][:500]})
